@@ -137,6 +137,10 @@ static bool Tree_Is_Black(struct Tree* m, var node) {
   return not Tree_Get_Color(m, node);
 }
 
+static size_t Tree_Size_Round(size_t s) {
+  return ((s + sizeof(var) - 1) / sizeof(var)) * sizeof(var);
+}
+
 static var Tree_Alloc(struct Tree* m) {
   var node = calloc(1, 3 * sizeof(var) + 
     sizeof(struct Header) + m->ksize + 
@@ -168,8 +172,8 @@ static void Tree_New(var self, var args) {
   struct Tree* m = self;
   m->ktype = get(args, $I(0));
   m->vtype = get(args, $I(1));
-  m->ksize = size(m->ktype);
-  m->vsize = size(m->vtype);
+  m->ksize = Tree_Size_Round(size(m->ktype));
+  m->vsize = Tree_Size_Round(size(m->vtype));
   m->nitems = 0;
   m->root = NULL;
 
@@ -214,8 +218,8 @@ static void Tree_Assign(var self, var obj) {
   Tree_Clear(self);
   m->ktype = implements_method(obj, Get, key_type) ? key_type(obj) : Ref;
   m->vtype = implements_method(obj, Get, val_type) ? val_type(obj) : Ref;
-  m->ksize = size(m->ktype);
-  m->vsize = size(m->vtype);
+  m->ksize = Tree_Size_Round(size(m->ktype));
+  m->vsize = Tree_Size_Round(size(m->vtype));
   foreach (key in obj) {
     Tree_Set(self, key, get(obj, key));
   }
